@@ -230,7 +230,7 @@ def c17(run):
     if rc != 0:
         run.broke('harness build', o[-1500:])
     else:
-        D.correspond(run, 'dispatch', [])
+        D.correspond(run, 'dispatch', [], reference_theorem='C17_triple_depends_only_on / C17_dispatch_registered_only / C17_obtain_meq (model of the four factories: the registration found by kty, alg, crv and that family\'s CheckKey)')
         D.correspond(run, 'text', [], reference_theorem='C17_key_roundtrip_interchangeable / C09_bytestr_*_roundtrip (model of the text and JSON forms of ByteStr, CoseMap, Key)')
         D.run_minlink(run, 'C17_impl_realises_alg')
     run.cov['rule'] = ('real keys of the 24 registered algorithms x {original, CBOR, JSON, text round trip} x alg present/absent x optional kid/key_ops, all four factories; '
